@@ -170,7 +170,18 @@ def run_body(stmts, env, state, names, iv, jv, interp, f):
                 if nm is not None:
                     state[nm] = value(st.value)
                 elif isinstance(t, ast.Name):
-                    state[t.id] = value(st.value)
+                    # a named predicate / integer of the case (parity flags, index arithmetic) lives with the case, a named
+                    # coefficient with the entries
+                    try:
+                        pv = ev_pred(st.value, env)
+                    except _Unsupported:
+                        pv = None
+                    if isinstance(pv, (bool, int)) and not isinstance(st.value, ast.Constant):
+                        env[t.id] = pv
+                        state.pop(t.id, None)
+                    else:
+                        state[t.id] = value(st.value)
+                        env.pop(t.id, None)
                 else:
                     raise _Unsupported("statement %s" % norm_text(st)[:60])
             elif isinstance(st, ast.AugAssign):
